@@ -68,11 +68,10 @@ func (this *C40Encoder) encode(context *EncoderContext) error {
 func (this *C40Encoder) backtrackOneCharacter(context *EncoderContext,
 	buffer, removed []byte, lastCharSize int) (int, []byte, []byte) {
 
-	count := len(buffer)
-	buffer = buffer[:count-lastCharSize]
 	context.pos--
 	c := context.GetCurrentChar()
 	lastCharSize, removed = this.encodeChar(c, removed)
+	buffer = buffer[:len(buffer)-lastCharSize]
 	context.ResetSymbolInfo() //Deal with possible reduction in symbol size
 	return lastCharSize, buffer, removed
 }
